@@ -97,7 +97,7 @@ func c15RunX(t *rm.Type, start *rm.Value, spare int, prefix [][]byte, final []by
 		if start != nil {
 			rp["start"] = rm.ToJSON(start)
 		}
-		if spare > 0 {
+		if spare != 0 {
 			rp["spare"] = spare
 		}
 		return &ev.Violation{Kind: kind, Subject: t.QName() + " " + where, Detail: detail, Replay: rp}
@@ -112,6 +112,8 @@ func c15RunX(t *rm.Type, start *rm.Value, spare int, prefix [][]byte, final []by
 		recv = bind.MustReal(start)
 		if spare > 0 {
 			bind.AddSpare(recv, spare)
+		} else if spare == -1 {
+			bind.AliasParts(recv) // a hand-built receiver whose list elements are one shared object
 		}
 	} else {
 		recv = bind.New(t)
@@ -150,7 +152,7 @@ func runC15(r *ev.Run, thorough bool) {
 	if thorough {
 		maxValid, maxTrunc, depth = 40, 30, 2
 	}
-	r.Rule = fmt.Sprintf("per type: events = up to %d valid wires (bases Z, D and every structural deviation: list lengths 0..3/255..257, every registered key, text lengths) + up to %d failing truncations at field boundaries and wires with unregistered discriminators; ALL event sequences of length <= %d decoded into ONE receiver starting from {fresh, hand-dirtied with the long variant, hand-dirtied with bodies of other registered types, key field naming one type while holding a body of another}, then every valid wire decoded into that receiver and into a fresh one; plus EVERY canonical V1 wire decoded into each hand-dirtied receiver and into receivers derived from the wire's own value (the same message; the same with every text padded out to its width / followed by a space; the same with every text one byte short); plus LADDERS: for every list / prefixed-text position, wires with that position at sizes 0..9 decoded into one receiver along 6 ladder patterns (growing, shrinking, zigzag; up to 10 decodes, checked after every step), and into receivers whose lists have 1 / 4 slots of spare capacity behind their length; oracle: equal results, no panic; states = distinct receiver contents reached, transitions = decode events applied; distinct = (type,start,event sequence,final)", maxValid, maxTrunc, depth)
+	r.Rule = fmt.Sprintf("per type: events = up to %d valid wires (bases Z, D and every structural deviation: list lengths 0..3/255..257, every registered key, text lengths) + up to %d failing truncations at field boundaries and wires with unregistered discriminators; ALL event sequences of length <= %d decoded into ONE receiver starting from {fresh, hand-dirtied with the long variant, hand-dirtied with bodies of other registered types, key field naming one type while holding a body of another}, then every valid wire decoded into that receiver and into a fresh one; plus EVERY canonical V1 wire decoded into each hand-dirtied receiver and into receivers derived from the wire's own value (the same message; the same with every text padded out to its width / followed by a space; the same with every text one byte short); plus LADDERS: for every list / prefixed-text position, wires with that position at sizes 0..9 decoded into one receiver along 6 ladder patterns (growing, shrinking, zigzag; up to 10 decodes, checked after every step), and into receivers whose lists have 1 / 4 slots of spare capacity behind their length or whose list elements are all one shared object (a hand-built message reused as receiver); oracle: equal results, no panic; states = distinct receiver contents reached, transitions = decode events applied; distinct = (type,start,event sequence,final)", maxValid, maxTrunc, depth)
 	parTypes(r, bind.Types, func(t *rm.Type, l *ev.Local) {
 		valid, trunc := c15Events(t, maxValid, maxTrunc)
 		if t.DynField() >= 0 {
@@ -347,12 +349,12 @@ func c15Ladders(r *ev.Run, prop string) {
 			}
 			// receivers whose lists carry spare capacity, then each size
 			for _, st := range []*rm.Value{valenum.Distinct(t), valenum.Long(t), rm.Zero(t)} {
-				for _, spare := range []int{1, 4} {
+				for _, spare := range []int{1, 4, -1} {
 					for x, w := range ws {
 						l.Eval(ev.H(fmt.Sprint(t.QName(), "spare", k, spare, x)+st.String()), true)
 						l.Traces++
 						atomic.AddInt64(&ns, 1)
-						if !report(c15RunX(t, st, spare, nil, w, l), fmt.Sprintf("receiver lists with %d spare slots, size %d at %s", spare, x, k)) {
+						if !report(c15RunX(t, st, spare, nil, w, l), fmt.Sprintf("receiver lists with %d spare slots (-1: all elements of a list are one shared object), size %d at %s", spare, x, k)) {
 							return
 						}
 						if !report(c15RunX(t, st, spare, [][]byte{ws[2]}, w, l), fmt.Sprintf("receiver lists with %d spare slots, size 2 then %d at %s", spare, x, k)) {
